@@ -38,6 +38,10 @@ class Gen:
         self.m1 = r.choice([0, 1, 2, 3, 4, 8, 8, 8, -1, 16384, 20000])
         self.m2 = r.choice([0, 1, 2, 3, 4, 8, 8, 8, -1])
         self.clean = r.choice([0, 0, 1])
+        if r.random() < self.p.get("rwait", 0.15):
+            # ReconnectWaitMin/Max as the application may leave or set them: defaults (zero), negative, maximum below the minimum
+            self.ops.append("rwait %d %d" % r.choice([(0, 0), (0, 0), (-1, 0), (0, 500000000), (5000000000, 1000000000), (2000000000, 2000000000),
+                                                     (1000000, 10000000000), (-5, -5)]))
         if r.random() < self.p.get("cfgx", 0.25):
             # the rest of the Config: user name, password (also without a user name), will, keep-alive
             user = r.choice([b"", b"", b"u", b"user"])
